@@ -2,6 +2,8 @@
 // state machine on a real in-process regtest node.
 //   snapshot replay <tests.ndjson>                 tests {init: node state, steps: [{a, r, exp}]}
 //   snapshot flips  <jobs.ndjson> <classes.json>   random byte flips / truncations / appended bytes, classified by the decoder below
+//   snapshot crash  <tests.ndjson>                 activation in a forked child that dies at a step boundary (specs/Snapshot/SnapshotCrash),
+//                                                  then a node is started on the files left behind
 // The genuine snapshot is produced by CreateUTXOSnapshot on the deterministic chain CreateBlockChain(200) whose commitment is
 // in the regtest chain parameters.  The snapshot *framing* (metadata, txid groups, compact sizes) is encoded and decoded by the code
 // in this file; the Coin codec (VARINT, amount/script compression - property C18) is the library's.
@@ -15,7 +17,10 @@
 #include <streams.h>
 #include <test/util/mining.h>
 #include <test/util/script.h>
+#include <logging.h>
 #include <random>
+#include <sys/wait.h>
+#include <unistd.h>
 using namespace vfh;
 
 namespace {
@@ -459,6 +464,145 @@ int Flips(const std::string& path, const std::string& classes_path)
     R().Summary();
     return 0;
 }
+
+// ------------------------------------------------------------------ process death during activation, restart on the files left behind
+// The child process sets up an on-disk node, starts loadtxoutset's steps and _Exit()s when the log line that marks the requested
+// step boundary appears (no destructors, no flushes: what a kill leaves). The parent starts a node on a copy of those files.
+const char* PatternOf(const std::string& point)
+{
+    if (point == "dir") return "[snapshot] loading ";                         // snapshot leveldb created, nothing loaded
+    if (point == "loaded") return "[snapshot] loaded ";                       // coins in the cache, before the final flush
+    if (point == "flushed") return "FlushSnapshotToDisk: completed";          // coins on disk, not yet hashed
+    if (point == "compared") return "[snapshot] validated snapshot";          // hash compared equal, flags faked in memory
+    if (point == "added") return "[snapshot] successfully activated snapshot"; // marker written, chainstate added
+    if (point == "cleanup") return "Removing leveldb dir";                    // refusal: marker removed, directory not yet
+    return nullptr;                                                            // "done" / "refused": after the call returned
+}
+
+[[noreturn]] void CrashChild(int wfd, const UniValue& t)
+{
+    try {
+        const bool blocks = t["blocks"].get_bool();
+        UniValue ns = Obj({{"hdr", "chain"}, {"failed", "no"}, {"otip", blocks ? BASEH : 0}, {"pool", 0}, {"disk", true}});
+        World w(ns);
+        auto& cm = w.sim->cm();
+        if (blocks) {
+            // all block data up to the base on disk, validated tip back at genesis (invalidate + reconsider, not yet re-validated)
+            CBlockIndex* b1 = w.sim->Lookup(g_chain[1]->GetHash());
+            BlockValidationState st;
+            if (!cm.ActiveChainstate().InvalidateBlock(st, b1)) _Exit(52);
+            LOCK(cs_main);
+            cm.ActiveChainstate().ResetBlockFailureFlags(b1);
+            cm.RecalculateBestHeader();
+            if (cm.ActiveHeight() != 0) _Exit(52);
+            cm.ActiveChainstate().ForceFlushStateToDisk();
+        } else {
+            LOCK(cs_main);
+            cm.ActiveChainstate().ForceFlushStateToDisk();
+        }
+        const std::string msg = fs::PathToString(w.sim->m_args.GetDataDirNet()) + "\n" + fs::PathToString(w.sim->m_path_root) + "\n";
+        if (write(wfd, msg.data(), msg.size()) != (ssize_t)msg.size()) _Exit(53);
+        close(wfd);
+        const Bytes bytes = Concretise(t["F"]);
+        static const char* pattern; pattern = PatternOf(t["point"].get_str());
+        LogInstance().EnableCategory(BCLog::LogFlags::ALL);
+        if (pattern) LogInstance().PushBackCallback([](const std::string& line) { if (line.find(pattern) != std::string::npos) _Exit(42); });
+        auto [ok, why] = w.Activate(bytes);
+        if (!pattern) _Exit(42);
+        _Exit(ok ? 60 : 61);          // the step boundary was never reached
+    } catch (const std::exception& e) {
+        std::cerr << "crash child: " << e.what() << std::endl;
+        _Exit(54);
+    }
+}
+
+int CrashTests(const std::string& path)
+{
+    InstallAbortHandlers();
+    const auto au = Params().AssumeutxoForHeight(BASEH);
+    ForEachLine(path, [&](size_t n, const UniValue& t) {
+        R().cur_test = n; R().cur_step = 0;
+        UniValue act = Arr({"crash", t["file"], t["point"], t["blocks"]});
+        R().cur_action = act;
+        ++R().steps;
+        std::cout.flush(); std::cerr.flush();
+        int fds[2];
+        if (pipe(fds) != 0) throw std::runtime_error("pipe");
+        const pid_t pid = fork();
+        if (pid < 0) throw std::runtime_error("fork");
+        if (pid == 0) { close(fds[0]); CrashChild(fds[1], t); }
+        close(fds[1]);
+        std::string msg; char buf[512]; ssize_t k;
+        while ((k = read(fds[0], buf, sizeof(buf))) > 0) msg.append(buf, k);
+        close(fds[0]);
+        int status = 0; waitpid(pid, &status, 0);
+        const int code = WIFEXITED(status) ? WEXITSTATUS(status) : -1;
+        const auto nl1 = msg.find('\n'); const auto nl2 = nl1 == std::string::npos ? nl1 : msg.find('\n', nl1 + 1);
+        if (nl2 == std::string::npos) throw std::runtime_error("crash child failed before the node was set up (exit " + std::to_string(code) + ")");
+        std::string netdir = msg.substr(0, nl1), rootdir = msg.substr(nl1 + 1, nl2 - nl1 - 1);
+        {
+            // the restarted node would pick the same "random" datadir name as the forked child did: move the crash image aside
+            const std::string moved = rootdir + "_crashed";
+            std::error_code ec; std::filesystem::remove_all(moved, ec);
+            std::filesystem::rename(rootdir, moved);
+            if (netdir.compare(0, rootdir.size(), rootdir) != 0) throw std::runtime_error("unexpected datadir layout");
+            netdir = moved + netdir.substr(rootdir.size()); rootdir = moved;
+        }
+        auto cleanup = [&] { std::error_code ec; std::filesystem::remove_all(rootdir, ec); };
+        if (code == 60 || code == 61) { R().Count("crashpoint_not_reached"); R().Info(Obj({{"kind", "info"}, {"not_reached", act}, {"returned", code == 60 ? "ok" : "refused"}})); cleanup(); ++R().tests; return; }
+        if (code != 42) { cleanup(); throw std::runtime_error("crash child ended with status " + std::to_string(status)); }
+        R().Count("crashes");
+        // ---- restart
+        SimOptions o; o.coins_db_in_memory = false; o.block_tree_db_in_memory = false; o.preload_dir = netdir; o.defer_load = true;
+        std::string started, why; bool hash_ok = false; std::string final_snap = "none"; bool dir = false, marker = false;
+        {
+            auto sim = MakeSim(o);
+            sim->m_node.notifications->m_shutdown_on_fatal_error = false;
+            const std::string err = sim->TryLoad();
+            const fs::path sdir = sim->m_args.GetDataDirNet() / "chainstate_snapshot";
+            dir = fs::exists(sdir); marker = fs::exists(sdir / "base_blockhash");
+            if (!err.empty()) { started = "refused"; why = err; }
+            else {
+                auto& cm = sim->cm();
+                Chainstate* snapcs = nullptr;
+                {
+                    LOCK(cs_main);
+                    for (auto& cs : cm.m_chainstates) if (cs && cs->m_from_snapshot_blockhash) snapcs = cs.get();
+                    started = snapcs && &cm.CurrentChainstate() == snapcs ? "adopted" : cm.m_chainstates.size() == 1 ? "single" : "other";
+                    if (snapcs) {
+                        final_snap = World::Status(*snapcs);
+                        std::optional<kernel::CCoinsStats> stats;
+                        if (!snapcs->CoinsDB().GetBestBlock().IsNull()) stats = kernel::ComputeUTXOStats(kernel::CoinStatsHashType::HASH_SERIALIZED, snapcs->CoinsDB(), cm.m_blockman);
+                        hash_ok = stats && au && AssumeutxoHash{stats->hashSerialized} == au->hash_serialized && snapcs->m_chain.Tip() && snapcs->m_chain.Tip()->GetBlockHash() == au->blockhash;
+                    }
+                }
+                if (started == "adopted" && t["blocks"].get_bool()) {
+                    // let the original chainstate validate up to the base: MaybeValidateSnapshot
+                    Chainstate* bg = WITH_LOCK(cs_main, return cm.HistoricalChainstate());
+                    if (bg) { BlockValidationState st; bg->ActivateBestChain(st); }
+                    LOCK(cs_main);
+                    final_snap = World::Status(*snapcs);
+                }
+            }
+        }
+        cleanup();
+        const UniValue& exp = t["exp"];
+        const std::string want = exp["started"].get_str();
+        R().Count("restart_" + started);
+        if (started == "other") R().Mismatch(act, "after the restart the node has an unexpected set of chainstates");
+        else if (started == "adopted" && !hash_ok) R().Mismatch(act, "after the restart the node runs on a snapshot chainstate whose coins do not hash to the commitment");
+        else if (started == "adopted" && want != "adopted") R().Mismatch(act, "after the restart the node runs on a snapshot chainstate that was never compared with the commitment (the specification starts " + want + ")");
+        else if (final_snap == "validated" && exp["final"].get_str() != "validated") R().Mismatch(act, "background validation blessed a snapshot chainstate the specification does not");
+        else {
+            if (want == "adopted" && started != "adopted") { R().Count("diverged_conservative"); R().Info(Obj({{"kind", "info"}, {"conservative", act}, {"why", started + ": " + why}})); }
+            else if (want != started) R().Count("restart_result_deviations");
+            if (dir != exp["dir"].get_bool() || marker != exp["marker"].get_bool()) R().Count("leftover_deviations");
+        }
+        ++R().tests;
+    });
+    R().Summary();
+    return 0;
+}
 } // namespace
 
 int main(int argc, char** argv)
@@ -468,6 +612,7 @@ int main(int argc, char** argv)
         BuildWorld();
         if (std::string(argv[1]) == "replay") return ReplayTests(argv[2]);
         if (std::string(argv[1]) == "flips" && argc >= 4) return Flips(argv[2], argv[3]);
+        if (std::string(argv[1]) == "crash") return CrashTests(argv[2]);
     } catch (const std::exception& e) {
         std::cout << "{\"kind\":\"info\",\"fatal\":\"" << e.what() << "\"}" << std::endl;
         return 3;
